@@ -54,6 +54,8 @@ def jobs(tier):
     out = [{'cond': 'export', 'pins': {}, 'weight': 50, 'label': 'export'}, {'cond': 'large-cap', 'pins': {}, 'weight': 60, 'label': 'large-cap'}]
     for nb in range(1, NB_MAX[tier] + 1):
         out.append({'cond': 'export-file', 'tier': tier, 'pins': {'nb': nb}, 'weight': 12, 'label': f'task with {nb} mini-batches, interaction order 1..2, cap 2..7'})
+    for m in (2, 3, 4) if tier == 'quick' else (2, 3, 4, 5):
+        out.append({'cond': 'step', 'm': m, 'fresh': False, 'anystate': True, 'pins': {}, 'weight': 4 ** m, 'label': f'm={m}, counts 0..3 in any combination (a candidate list that changed over the history)'})
     for m in BOUNDS[tier]:
         for fresh in (False, True):
             if m >= 6 and not fresh:
@@ -244,6 +246,8 @@ def run_job(job):
     if job['cond'] == 'export-file':
         return run_exportfile(job)
     m, fresh = job['m'], job['fresh']
+    ANY = bool(job.get('anystate'))      # a candidate list that changed over the history: counts 0..3 in ANY combination (no invariant to assume or restore)
+    CMAX = 3 if ANY else globals()['CMAX']
     ns = load_fn()
     f = ns['prior_combinations_sample']
     G = ns['GLOBAL_PRIOR_COMB_COUNTS']
@@ -254,9 +258,10 @@ def run_job(job):
         st['c'] = [z3.Int(f'c{i}') for i in range(m)]
         for v in st['c']:
             ctx.assume(v >= 0, v <= CMAX)
-        for a in st['c']:
-            for b in st['c']:
-                ctx.assume(a - b <= 1)
+        if not ANY:
+            for a in st['c']:
+                for b in st['c']:
+                    ctx.assume(a - b <= 1)
         st['cap'] = z3.Int('cap')
         ctx.assume(st['cap'] >= 0, st['cap'] <= m + 1)
         # the counter is process-global: it may already hold counts of OTHER candidate lists (e.g. interaction tuples)
@@ -271,7 +276,7 @@ def run_job(job):
                 ctx.assume(v == 0)
 
     def wit(mdl):
-        return {'cond': 'step', 'm': m, 'fresh': fresh, 'counts': [mdl.eval(v, model_completion=True).as_long() for v in st['c']],
+        return {'cond': 'step', 'm': m, 'fresh': fresh, 'anystate': ANY, 'counts': [mdl.eval(v, model_completion=True).as_long() for v in st['c']],
                 'cap': mdl.eval(st['cap'], model_completion=True).as_long(), 'foreign': mdl.eval(st['foreign'], model_completion=True).as_long()}
 
     def body(ctx, out):
@@ -303,9 +308,10 @@ def run_job(job):
             if all(v is not None for v in post.values()):
                 for k in C:
                     bad.append(post[k] != pre[k] + (1 if k in sel else 0))
-                for a in C:
-                    for b in C:
-                        bad.append(post[a] - post[b] > 1)
+                if not ANY:
+                    for a in C:
+                        for b in C:
+                            bad.append(post[a] - post[b] > 1)
         out.never(ctx, z3.Or(bad), wit, 'post-condition of one sampling step')
         out.sample({'m': m, 'selected': [list(s) for s in sel], 'decisions': len(ctx.trace)})
     return hutil.run_symx(job, setup, body)
@@ -364,7 +370,7 @@ def replay(w):
             probs.append('a more-evaluated candidate was preferred to a less-evaluated one')
         if any(post.get(k) != pre[k] + (1 if k in res else 0) for k in C):
             probs.append('counter does not equal pre-count + 1 exactly on the selected candidates')
-        if len(post) == len(C) and max(post.values()) - min(post.values()) > 1:
+        if not w.get('anystate') and len(post) == len(C) and max(post.values()) - min(post.values()) > 1:
             probs.append('evaluation counts differ by more than one afterwards')
     if probs:
         return {'reproduced': True, 'signature': 'C07:step', 'what': f'pre-counts {w["counts"]}, cap {cap}: ' + '; '.join(probs), 'detail': {'selected': [list(r) for r in res]}}
